@@ -211,7 +211,7 @@ func c18Valid(src string) (ok bool, why string) {
 	if !lexOK {
 		return false, "lexer-rejects-parseable"
 	}
-	if fset.Position(f.Package).Line != pkgLine {
+	if fset.PositionFor(f.Package, false).Line != pkgLine {
 		return false, "lexer-disagree-package"
 	}
 	n := 0
@@ -220,7 +220,7 @@ func c18Valid(src string) (ok bool, why string) {
 			if c.Pos() > f.Package {
 				continue
 			}
-			p := fset.Position(c.Pos())
+			p := fset.PositionFor(c.Pos(), false)
 			if n >= len(cs) || cs[n].Text != c.Text || cs[n].Line != p.Line || cs[n].Col != p.Column {
 				return false, "lexer-disagree-comment"
 			}
